@@ -9,6 +9,7 @@ from .interp_base import (
 )
 from .vals import *  # noqa: F401,F403
 from .vals import Transf
+from .reference import asdl
 from .vals import (
     AstCls, BoundBuiltin, Cst, Ext, Func, Gen, Hole, Obj, PDict, PList, PSet, PTuple, Rep,
     RepoCls, RepoMod, SColl, Splice, Str, StrOp, SVal, Sym, TNode, TypeOf, UList, UNode,
@@ -195,6 +196,10 @@ class StmtMixin:
         if isinstance(t, ast.Compare) and len(t.ops) == 1 and isinstance(t.ops[0], ast.IsNot) and isinstance(t.left, ast.Name) and isinstance(t.comparators[0], ast.Constant) and t.comparators[0].value is None:
             v = fr.lookup(t.left.id)
             return isinstance(v, (Obj, Unknown)) and not getattr(v, "concrete", False)
+        # `while isinstance(n, Attribute): n = n.value` down a chain of user nodes
+        if isinstance(t, ast.Call) and isinstance(t.func, ast.Name) and t.func.id == "isinstance" and len(t.args) == 2 and isinstance(t.args[0], ast.Name):
+            v = fr.lookup(t.args[0].id)
+            return isinstance(v, UNode) or type(v).__name__ == "Transf"
         return False
 
     def st_While(self, st, fr):
@@ -634,8 +639,17 @@ class StmtMixin:
         if isinstance(op, ast.Add):
             if self.is_stringy(l) or self.is_stringy(r):
                 return Str([l, r])
-            if isinstance(l, PList) and isinstance(r, PList):
-                return PList(list(l.items) + list(r.items))
+            def as_items(x):
+                if isinstance(x, PList) and not x.sym_elem_of:
+                    return list(x.items)
+                if isinstance(x, UList) and x.elem_type not in asdl.PRIMITIVE:
+                    e = x.elem("*")
+                    return [Rep([e], x.path(), e)]  # a user list: one generic-element segment
+                return None
+
+            li, ri = as_items(l), as_items(r)
+            if li is not None and ri is not None:
+                return PList(li + ri)
         if isinstance(op, ast.Mod) and self.is_stringy(l):
             return StrOp("%", [l, r])
         if isinstance(op, ast.BitOr):
